@@ -21,8 +21,6 @@ def passwords_for(cps):
     out = []
     for cp in cps:
         ch = chr(cp)
-        if len(ch.lower()) != 1:
-            continue          # U+0130: its segmentation is the recorded finding F-C05 (property C05); the file format is not the issue
         out += [ch, ch + 'a', 'a' + ch, 'a' + ch + 'b', ch + ch, 'ab1' + ch, ch + ' ', ' ' + ch]
     return out
 
@@ -190,7 +188,7 @@ def run(run, rng):
     run.required_events = ['trainings', 'disk_vs_tally', 'guesser_loader_compared', 'scorer_loader_compared', 'omen_loaders_compared']
     run.min_distinct = 4
     run.assumptions = ['"what is on disk" = decode with the ruleset encoding, split on LF only, split each line at the last TAB',
-                       'passwords are delivered as $HEX[] so every character reaches the validity filter intact', 'U+0130 is left out (mis-segmented by the trainer: finding F-C05 under C05)', 'ASCII-compatible encodings only']
+                       'passwords are delivered as $HEX[] so every character reaches the validity filter intact', 'ASCII-compatible encodings only']
     cases = gen_cases(rng, run.tier, run.shard)
     if run.tier == 'thorough':
         run.exhaustive = True
